@@ -124,6 +124,7 @@ type midiView struct {
 	chVal                  int
 	strBranch              int
 	str                    string
+	nilProblem             string // an accessor called with some out parameters nil answers differently ("Only arguments that are not nil are parsed and filled")
 }
 
 var midiAccTypes = [11]midi.Type{midi.NoteOnMsg, midi.NoteOffMsg, midi.PolyAfterTouchMsg, midi.AfterTouchMsg,
@@ -271,7 +272,103 @@ func sigMidi(buf []int32, m midi.Message, mv *midiView) []int32 {
 	}
 	mv.strBranch = branch
 	buf = append(buf, 1, int32(branch))
+	mv.nilProblem = nilSubsets(m, mv)
 	return buf
+}
+
+// nilSubsets calls every accessor of midi.Message with every subset of its out parameters nil: the result must be
+// the same and every non-nil parameter must receive the value the all-non-nil call gave (mv). "" = consistent.
+func nilSubsets(m midi.Message, mv *midiView) string {
+	const sent = 0xEE
+	p8 := func(nilp bool, v *uint8) *uint8 {
+		if nilp {
+			return nil
+		}
+		return v
+	}
+	chk := func(name string, mask int, ok, want bool, got, full [3]int, n int) string {
+		if ok != want {
+			return fmt.Sprintf("%s with nil mask %03b answers %v, with all out parameters %v", name, mask, ok, want)
+		}
+		if ok {
+			for i := 0; i < n; i++ {
+				if mask&(1<<i) == 0 && got[i] != full[i] {
+					return fmt.Sprintf("%s with nil mask %03b leaves out parameter %d = %d, all-non-nil call gives %d", name, mask, i, got[i], full[i])
+				}
+			}
+		}
+		return ""
+	}
+	type acc3 struct {
+		name string
+		f    func(c, a, b *uint8) bool
+		ok   bool
+		full [3]int
+	}
+	for _, x := range []acc3{
+		{"GetNoteOn", m.GetNoteOn, mv.acc[0], mv.val[0]},
+		{"GetNoteOff", m.GetNoteOff, mv.acc[1], mv.val[1]},
+		{"GetPolyAfterTouch", m.GetPolyAfterTouch, mv.acc[2], mv.val[2]},
+		{"GetControlChange", m.GetControlChange, mv.acc[4], mv.val[4]},
+		{"GetNoteStart", m.GetNoteStart, mv.noteStart, mv.nsVal},
+	} {
+		for mask := 1; mask < 8; mask++ {
+			var c, a, b uint8 = sent, sent, sent
+			ok := x.f(p8(mask&1 != 0, &c), p8(mask&2 != 0, &a), p8(mask&4 != 0, &b))
+			if s := chk(x.name, mask, ok, x.ok, [3]int{int(c), int(a), int(b)}, x.full, 3); s != "" {
+				return s
+			}
+		}
+	}
+	type acc2 struct {
+		name string
+		f    func(c, a *uint8) bool
+		ok   bool
+		full [3]int
+	}
+	for _, x := range []acc2{
+		{"GetAfterTouch", m.GetAfterTouch, mv.acc[3], mv.val[3]},
+		{"GetProgramChange", m.GetProgramChange, mv.acc[5], mv.val[5]},
+		{"GetNoteEnd", m.GetNoteEnd, mv.noteEnd, [3]int{mv.neVal[0], mv.neVal[1], 0}},
+	} {
+		for mask := 1; mask < 4; mask++ {
+			var c, a uint8 = sent, sent
+			ok := x.f(p8(mask&1 != 0, &c), p8(mask&2 != 0, &a))
+			if s := chk(x.name, mask, ok, x.ok, [3]int{int(c), int(a), 0}, x.full, 2); s != "" {
+				return s
+			}
+		}
+	}
+	for mask := 1; mask < 8; mask++ {
+		var c uint8 = sent
+		var rel int16 = 0x6EEE
+		var abs uint16 = 0xEEEE
+		pc, prel, pabs := p8(mask&1 != 0, &c), &rel, &abs
+		if mask&2 != 0 {
+			prel = nil
+		}
+		if mask&4 != 0 {
+			pabs = nil
+		}
+		ok := m.GetPitchBend(pc, prel, pabs)
+		if s := chk("GetPitchBend", mask, ok, mv.acc[6], [3]int{int(c), int(rel), int(abs)}, mv.val[6], 3); s != "" {
+			return s
+		}
+	}
+	if ok := m.GetMTC(nil); ok != mv.acc[7] {
+		return fmt.Sprintf("GetMTC(nil) answers %v, GetMTC(&v) %v", ok, mv.acc[7])
+	}
+	if ok := m.GetSPP(nil); ok != mv.acc[8] {
+		return fmt.Sprintf("GetSPP(nil) answers %v, GetSPP(&v) %v", ok, mv.acc[8])
+	}
+	if ok := m.GetSongSelect(nil); ok != mv.acc[9] {
+		return fmt.Sprintf("GetSongSelect(nil) answers %v, GetSongSelect(&v) %v", ok, mv.acc[9])
+	}
+	// GetSysEx(nil) is not called: unlike the others it does not document nil as allowed (it dereferences it)
+	if ok := m.GetChannel(nil); ok != mv.ch {
+		return fmt.Sprintf("GetChannel(nil) answers %v, GetChannel(&v) %v", ok, mv.ch)
+	}
+	return ""
 }
 
 // smfView holds the answers of smf.Message the oracles look at
